@@ -288,9 +288,15 @@ fn spawn_async_ao_list_in_task<'a, SE: extensions::ShellExtensions>(
     // Mark the child shell as not interactive; we don't want it messing with the terminal too much.
     cloned_shell.options_mut().interactive = false;
 
-    // Redirect stdin to null, per spec.
-    if let Ok(null) = openfiles::null() {
-        cloned_params.set_fd(openfiles::OpenFiles::STDIN_FD, null);
+    // Redirect stdin to null, per spec -- unless the enclosing construct gave the list a
+    // standard input of its own (a pipe, a redirection), which it then keeps.
+    if matches!(
+        params.open_files.fd_entry(openfiles::OpenFiles::STDIN_FD),
+        openfiles::OpenFileEntry::NotSpecified
+    ) {
+        if let Ok(null) = openfiles::null() {
+            cloned_params.set_fd(openfiles::OpenFiles::STDIN_FD, null);
+        }
     }
 
     let join_handle = tokio::spawn(async move {
